@@ -41,6 +41,12 @@ pub fn run(r: &Run) -> std::io::Result<Out> {
     if let Some(c) = r.cwd {
         cmd.current_dir(c);
     }
+    // a child must never outlive the engine (e.g. when the engine stops on a machinery error while a non-terminating
+    // zerv is still running): the kernel kills it when its parent dies
+    unsafe {
+        use std::os::unix::process::CommandExt;
+        cmd.pre_exec(|| { libc::prctl(libc::PR_SET_PDEATHSIG, libc::SIGKILL); Ok(()) });
+    }
     cmd.stdin(if r.stdin.is_some() { Stdio::piped() } else { Stdio::null() })
         .stdout(Stdio::piped())
         .stderr(Stdio::piped());
